@@ -1,5 +1,6 @@
 import SimVerif.Model.Assign
 import SimVerif.Lemmas.Voting
+import SimVerif.Lemmas.AssignCert
 import Mathlib.Data.List.GetD
 /-!
 # The assignment optimum is invariant under an injective renaming of the track ids
@@ -263,7 +264,6 @@ theorem small_ren (ρ : Nat → Nat) (s : List AssignX.Entry)
 /-- **the optimum used by `validChoice` is invariant under the renaming** -/
 theorem bestOf_ren (ρ : Nat → Nat) (s : List AssignX.Entry) (thr : Int)
     (h : ∀ x ∈ s, ∀ y ∈ s, ρ x.t = ρ y.t → x.t = y.t) : bestOf (s.map (renE ρ)) thr = bestOf s thr := by
-  unfold bestOf
-  rw [small_ren ρ s h, best_ren ρ s thr h, bestDP_rename ρ s thr h]
+  rw [AssignCert.bestOf_eq_best, AssignCert.bestOf_eq_best, best_ren ρ s thr h]
 
 end SimVerif.RenA
